@@ -456,7 +456,62 @@ fn parse_fault(v: &Value) -> Option<(String, String)> {
     Some((c.to_string(), k.to_string()))
 }
 
+thread_local! {
+    /// the scenario's long-lived compactor (scenarios with "pc": true): the worker keeps ONE Compactor for its whole life, so
+    /// whatever a call leaves behind in it is there for the next call
+    static PC: std::cell::RefCell<Option<Compactor<ScriptedObjectStore, HarnessTime>>> = std::cell::RefCell::new(None);
+}
+
+fn compaction_config(scn: &Value) -> (CompactionConfig, u64, u64) {
+    let now = scn["now"].as_u64().unwrap_or(1000);
+    let ttl = scn["ttl"].as_u64().unwrap_or(1000);
+    (CompactionConfig {
+        target_segment_size: scn["target"].as_u64().unwrap_or(1 << 20) as usize,
+        max_segments: 2,
+        min_segments_to_compact: 2,
+        max_segments_per_compaction: scn["maxsel"].as_u64().unwrap_or(10) as usize,
+        tombstone_ttl: Duration::from_millis(ttl),
+        compression_enabled: false,
+    }, now, ttl)
+}
+
+/// `needs_compaction()` on the long-lived compactor, some time before the compaction itself (a monitoring probe, a scheduler
+/// that checks now and compacts later): it reads, it decides nothing
+async fn do_check(store: &ScriptedObjectStore, scn: &Value, opi: usize) {
+    let cs = store.as_actor("C");
+    store.inner.lock().unwrap().cur_op.insert("C".into(), opi);
+    let (cfg, now, _) = compaction_config(scn);
+    let c = PC.with(|p| p.borrow_mut().take()).unwrap_or_else(|| {
+        let mm = ManifestManager::new(cs.clone(), PREFIX);
+        Compactor::with_time_source(Arc::new(cs.clone()), PREFIX.to_string(), mm, cfg, HarnessTime(Arc::new(Mutex::new(now))))
+    });
+    let _ = c.needs_compaction().await;
+    PC.with(|p| *p.borrow_mut() = Some(c));
+    cs.finish_actor();
+}
+
 async fn do_compact(store: &ScriptedObjectStore, scn: &Value, opi: usize, fault: Option<(String, String)>) {
+    if scn["pc"].as_bool().unwrap_or(false) {
+        let cs = store.as_actor("C");
+        {
+            let mut g = store.inner.lock().unwrap();
+            g.cur_op.insert("C".into(), opi);
+            if let Some((c, k)) = fault {
+                g.faults.push((opi, c, k));
+            }
+        }
+        let (cfg, now, ttl) = compaction_config(scn);
+        store.log(json!({"a": "compact_begin", "gc_before": now.saturating_sub(ttl)}));
+        let mut c = PC.with(|p| p.borrow_mut().take()).unwrap_or_else(|| {
+            let mm = ManifestManager::new(cs.clone(), PREFIX);
+            Compactor::with_time_source(Arc::new(cs.clone()), PREFIX.to_string(), mm, cfg, HarnessTime(Arc::new(Mutex::new(now))))
+        });
+        let r = if opi % 2 == 1 { c.compact_if_needed().await.map(|_| ()) } else { c.compact().await.map(|_| ()) };
+        store.log(json!({"a": "compact_end", "ok": r.is_ok(), "res": match &r { Ok(_) => "ok".to_string(), Err(e) => e.to_string() }}));
+        PC.with(|p| *p.borrow_mut() = Some(c));
+        cs.finish_actor();
+        return;
+    }
     let cs = store.as_actor("C");
     {
         let mut g = store.inner.lock().unwrap();
@@ -498,6 +553,7 @@ async fn run_scenario_async(scn: Value, store: ScriptedObjectStore) {
     };
     let mut sp = StreamingPersistence::new(Arc::new(fs.clone()), PREFIX.to_string(), 1, wbc).await.unwrap();
     let ops = scn["ops"].as_array().cloned().unwrap_or_default();
+    PC.with(|p| *p.borrow_mut() = None);
     for (i, op) in ops.iter().enumerate() {
         let opi = i + 1;
         store.inner.lock().unwrap().cur_op.insert("F".into(), opi);
@@ -519,6 +575,7 @@ async fn run_scenario_async(scn: Value, store: ScriptedObjectStore) {
                                  "err": r.err().map(|e| e.to_string()).unwrap_or_default()}));
             }
             "compact" => do_compact(&store, &scn, opi, parse_fault(&op[1])).await,
+            "check" => do_check(&store, &scn, opi).await,
             // install a checkpoint of everything recoverable (what a checkpoint job would do): checkpoint object,
             // manifest.compact_segments, manifest saved; no faults (actor "K")
             "ckpt" => {
@@ -606,20 +663,32 @@ fn random_scenario(rng: &mut impl Rng, i: usize, cheavy: bool) -> Value {
     let mut deltas = Vec::new();
     let n = rng.gen_range(3..=8);
     let mut ts = 0u64;
-    let mut used: std::collections::HashSet<(u64, u64)> = Default::default();
+    // a replica never issues one stamp twice FOR ONE KEY; two keys may well carry the same stamp (every shard of a replica has a
+    // clock of its own, and merged values of different keys coincide too)
+    let mut used: std::collections::HashSet<(String, u64, u64)> = Default::default();
+    let mut last: Option<(String, u64, u64)> = None;
     for id in 1..=n {
-        ts += rng.gen_range(0..=2);
-        let r = rng.gen_range(1..=3);
-        // a replica never issues one stamp twice
-        while !used.insert((ts, r)) || !used.insert((ts + 1, r)) || !used.insert((ts + 2, r)) {
+        let kind = rng.gen_range(0..6);
+        let key = match kind { 0..=2 => "h".to_string(), _ => format!("s{}", rng.gen_range(1..=2)) };
+        let mut r = rng.gen_range(1..=3);
+        match &last {
+            // four times in ten the stamp of the previous update is taken over as it is (when the key differs)
+            Some((lk, lts, lr)) if *lk != key && rng.gen_range(0..10) < 4 => { ts = *lts; r = *lr; }
+            _ => ts += rng.gen_range(0..=2),
+        }
+        while used.contains(&(key.clone(), ts, r)) || used.contains(&(key.clone(), ts + 1, r)) || used.contains(&(key.clone(), ts + 2, r)) {
             ts += 1;
         }
+        for d in 0..3 {
+            used.insert((key.clone(), ts + d, r));
+        }
+        last = Some((key.clone(), ts, r));
         let ts1 = ts.max(1);
-        let d = match rng.gen_range(0..6) {
-            0 | 1 => json!({"id": id, "k": "h", "t": "hset", "f": format!("f{}", rng.gen_range(1..=3)), "v": format!("v{id}"), "ts": ts1 + 1, "r": r}),
-            2 => json!({"id": id, "k": "h", "t": "hdel", "f": format!("f{}", rng.gen_range(1..=3)), "ts": ts1 + 2, "r": r}),
-            3 => json!({"id": id, "k": format!("s{}", rng.gen_range(1..=2)), "t": "del", "ts": ts1 + 1, "r": r}),
-            _ => json!({"id": id, "k": format!("s{}", rng.gen_range(1..=2)), "t": "set", "v": format!("v{id}"), "ts": ts1 + 1, "r": r,
+        let d = match kind {
+            0 | 1 => json!({"id": id, "k": key, "t": "hset", "f": format!("f{}", rng.gen_range(1..=3)), "v": format!("v{id}"), "ts": ts1 + 1, "r": r}),
+            2 => json!({"id": id, "k": key, "t": "hdel", "f": format!("f{}", rng.gen_range(1..=3)), "ts": ts1 + 2, "r": r}),
+            3 => json!({"id": id, "k": key, "t": "del", "ts": ts1 + 1, "r": r}),
+            _ => json!({"id": id, "k": key, "t": "set", "v": format!("v{id}"), "ts": ts1 + 1, "r": r,
                         "pad": if i % 40 == 7 && id == 2 { 17 << 20 } else if rng.gen_range(0..5) == 0 { 300 } else { 0 }}),
         };
         deltas.push(d);
@@ -629,8 +698,13 @@ fn random_scenario(rng: &mut impl Rng, i: usize, cheavy: bool) -> Value {
     let cfaults = ["none", "none", "get_man:fail", "get_seg:fail", "get_seg:corrupt", "put_seg:fail", "put_seg:partial", "put_tmp:fail", "rename:fail", "rename:applied", "delete_seg:fail",
                    "get_seg:fail*2", "get_seg:fail*3", "get_seg:fail*5", "get_man:fail*3", "get_seg:corrupt*3", "put_seg:fail*3", "delete_seg:fail*3"];
     let mut ops = Vec::new();
+    // one scenario in three keeps one compactor for its whole life and probes `needs_compaction` now and then
+    let pc = rng.gen_range(0..3) == 0;
     for id in 1..=n {
         ops.push(json!(["push", id]));
+        if pc && rng.gen_range(0..3) == 0 {
+            ops.push(json!(["check", "none"]));
+        }
         if rng.gen_range(0..3) == 0 {
             ops.push(json!(["flush", faults[rng.gen_range(0..faults.len())]]));
         }
@@ -653,7 +727,7 @@ fn random_scenario(rng: &mut impl Rng, i: usize, cheavy: bool) -> Value {
     let ttl = if i % 3 == 0 { 1000 - rng.gen_range(0..6) } else { 1000 };
     // every fifth scenario: a buffer limit below the backlog (a flush may be cut into several segments)
     let maxd = if i % 5 == 0 { rng.gen_range(1..=3) } else { 0 };
-    json!({"deltas": deltas, "ops": ops, "now": now, "ttl": ttl, "maxd": maxd,
+    json!({"deltas": deltas, "ops": ops, "now": now, "ttl": ttl, "maxd": maxd, "pc": pc,
            "target": if i % 4 == 0 { 250 } else { 1 << 20 }, "maxsel": rng.gen_range(2..=5)})
 }
 
